@@ -194,4 +194,33 @@ example : (run exampleOffHistory).slots.map (fun e =>
       (Arc.as_ptr_off (run exampleOffHistory).mem (asArc (run exampleOffHistory).mem e.2),
        (asArc (run exampleOffHistory).mem e.2).off)) = List.replicate 7 (8, 0) := by decide
 
+/-- `mem::swap` inside `with_arc_mut`: the lending ThinArc (slot 0) and the ThinArc of slot 7 exchange
+their allocations, both counts stay 1, nothing is logged -/
+def exampleSwapHistory : List Op :=
+  [.create 0 (.hwlFromVec ⟨9, 9⟩ 2 [⟨1, 1⟩, ⟨2, 2⟩]), .intoThin 0,
+   .create 7 (.hwlFromVec ⟨8, 8⟩ 1 [⟨30, 3⟩]), .intoThin 7,
+   .withCb 0 .thinWithArcMut [.swapWith 7, .cnt, .read]]
+
+example : (run exampleSwapHistory).slots.map (fun e =>
+      (e.1, e.2.kind, e.2.blk, e.2.off, loadCount (run exampleSwapHistory).mem e.2.blk,
+        viewLen (run exampleSwapHistory).mem e.2)) =
+    [(7, .thin, 0, 0, 1, 2), (0, .thin, 1, 0, 1, 1)] := by decide
+
+example : (run exampleSwapHistory).mem.log = [.alloc 0 40 8, .alloc 1 32 8] := by decide
+
+/-- the unsizing coercion of a `UniqueArc`, then `shareable`, a clone, and both released: the one
+`dealloc` records the layout requested by `UniqueArc::new` -/
+def exampleUniqDynHistory : List Op :=
+  [.create 0 (.uniqueNew ⟨1, 1⟩), .conv 0 .toDyn, .conv 0 .shareable, .clone 1 0]
+
+example : ((run (exampleUniqDynHistory.take 2)).slots.map fun e => (e.1, e.2.kind, e.2.ty, e.2.blk, e.2.off)) =
+    [(0, .uniq, .dyn, 0, 0)] := by decide
+
+example : ((run exampleUniqDynHistory).slots.map fun e =>
+      (e.1, e.2.kind, e.2.ty, e.2.blk, e.2.off, loadCount (run exampleUniqDynHistory).mem e.2.blk)) =
+    [(1, .arc, .dyn, 0, 0, 2), (0, .arc, .dyn, 0, 0, 2)] := by decide
+
+example : (run (exampleUniqDynHistory ++ [.dropAll])).mem.log =
+    [.alloc 0 16 8, .drop 1, .dealloc 0 16 8] := by decide
+
 end M1
